@@ -838,7 +838,7 @@ def model_phase(ctx, flags_by):
     for a in ('DoGetCached', 'DoGetCreate', 'DoGetError', 'Rewrite', 'Expire', 'Tick'):
         if taken.get(a, 0) == 0:
             raise tlc.MachineryError('vacuity: action %s has coverage 0 (%s)' % (a, taken))
-    maxver, maxclock = (4, 8) if thorough else (3, 6)
+    maxver, maxclock = (4, 7) if thorough else (3, 6)
     jobs, names = [], []
     for backend in BACKENDS:
         for path in ('single', 'meta'):
